@@ -9,12 +9,21 @@ use std::io::{Read, Write};
 
 /// Decompress using BZip2
 pub(crate) fn decompress(data: &[u8], expected_size: usize) -> Result<Vec<u8>> {
-    let mut decoder = BzDecoder::new(data);
+    // The stream is only followed one byte past the expected size: that is enough to
+    // tell it expands to more, without expanding all of it
+    let mut decoder = BzDecoder::new(data).take(expected_size as u64 + 1);
     let mut decompressed = Vec::with_capacity(expected_size);
 
     decoder
         .read_to_end(&mut decompressed)
         .map_err(|e| decompression_error("BZip2", e))?;
+
+    if decompressed.len() > expected_size {
+        return Err(decompression_error(
+            "BZip2",
+            format!("Decompressed data exceeds the expected {expected_size} bytes"),
+        ));
+    }
 
     if decompressed.len() != expected_size {
         return Err(decompression_error(
